@@ -93,9 +93,11 @@ def report(prop, mod, m, tier, seed, wall, write_evidence=True):
     os.makedirs(REPLAY, exist_ok=True)
     known_hit = {}
     new = []
+    prefixes = [k for k, e in known.items() if e.get("prefix")]
     for v in m["violations"]:
-        if v["mechanism"] in known:
-            known_hit.setdefault(v["mechanism"], []).append(v)
+        mk = v["mechanism"] if v["mechanism"] in known else next((p for p in prefixes if v["mechanism"].startswith(p)), None)
+        if mk is not None:
+            known_hit.setdefault(mk, []).append(v)
         else:
             new.append(v)
     inconclusive = []
@@ -177,7 +179,7 @@ def report(prop, mod, m, tier, seed, wall, write_evidence=True):
     for l in lines:
         print(l)
     if mech_counts:
-        print("MECHANISMS " + prop + " " + "; ".join(f"{k} x{v}{' [known]' if k in known else ''}" for k, v in sorted(mech_counts.items())))
+        print("MECHANISMS " + prop + " " + "; ".join(f"{k} x{v}{' [known]' if (k in known or any(k.startswith(p) for p in prefixes)) else ''}" for k, v in sorted(mech_counts.items())))
     print(
         f"{prop} {tier} seed={seed}: {status}; evaluations={m['evaluations']} monitor_evals={m['monitor_evals']} "
         f"distinct_nontrivial={len(m['nontrivial'])} known={sum(len(v) for v in known_hit.values())} new_violations={len(seen)} wall={wall:.1f}s"
